@@ -40,6 +40,7 @@ CONSTANTS Kind,      \* one of the kinds above
           CursorFix, \* TRUE: repaired group rotation
           AllowFront,\* ordered kinds: push_front too
           Perpetual, \* TRUE: children may be polled without bound (np saturates at MaxPolls): starvation lassos
+          Panics,    \* number of child polls that may panic (the panic unwinds through the collection's poll)
           Mut        \* "none", or the name of a deliberately broken variant (non-vacuity controls, legacy defects)
 
 VARIABLES st, m, hist
@@ -100,7 +101,7 @@ Init0(upt) ==
            parked |-> {}, idx |-> [c \in Children |-> IF c <= NInit THEN c - 1 ELSE 0], inc |-> NInit, outc |-> 0,
            out |-> {}, nw |-> 0,
            up |-> "open", upt |-> upt, upn |-> 0, upp |-> 0, upe |-> 0, should |-> FALSE,
-           res |-> {}, failed |-> {}, taken |-> FALSE, resp |-> "P" ]
+           res |-> {}, failed |-> {}, taken |-> FALSE, resp |-> "P", npanic |-> 0 ]
 
 InitEvs(s0) == <<[e |-> "reset", kind |-> Kind, cap |-> IF NInit = 0 THEN Cap0 ELSE NInit, run |-> 1, uptotal |-> s0.upt]>>
            \o [c \in 1..NInit |-> [e |-> "push_b", c |-> c]]
@@ -305,8 +306,9 @@ ChildStep ==
   /\ LET c == st.cc b == st.cb i == st.ci IN
      /\ Perpetual \/ st.np[c] < MaxPolls
      /\ \E act \in {0} \cup Stash(st) \cup {c} :
-        \E resp \in (IF IsMrg THEN {"P", "I", "E"} ELSE IF IsTry THEN {"P", "R", "X"} ELSE {"P", "R"}) :
+        \E resp \in (IF IsMrg THEN {"P", "I", "E"} ELSE IF IsTry THEN {"P", "R", "X"} ELSE {"P", "R"}) \cup {"!"} :
           /\ resp = "I" => (Perpetual \/ st.ni[c] < MaxItems)
+          /\ resp = "!" => st.npanic < Panics
           /\ resp = "X" => Cardinality(st.failed) < 2
           /\ LET s0 == [st EXCEPT !.np[c] = IF @ < MaxPolls THEN @ + 1 ELSE @, !.resp = resp]
                  wk == IF act = 0 THEN <<s0, <<>>>> ELSE WakeCall(s0, act)
@@ -324,6 +326,12 @@ ChildStep ==
                                               ELSE Arm([s1 EXCEPT !.pc = "idle", !.ni[c] = k, !.rk = k], b, i)),
                                              wk[2] \o co, "g_ready")
                          [] resp = "E" -> Go([vac EXCEPT !.pc = "idle"], wk[2] \o co \o cd, "enter")
+                         \* the child's poll panics: the unwinding leaves every loop at once.  The child stays where it is,
+                         \* its queued flag was cleared when it was dequeued, nothing else has been touched
+                         \* (no guard object re-queues it, the cursor and `rem` are as they were).
+                         [] resp = "!" -> LET s3 == [s1 EXCEPT !.pc = "idle", !.npanic = @ + 1]
+                                              s2 == IF Mut = "panic_requeue" THEN Arm(s3, b, i) ELSE s3 IN
+                                          <<s2, wk[2] \o <<[e |-> "cpanic", c |-> c], RetEv("panic", 0, 0)>> \o ObsEvs(s2)>>
              IN st' = r[1] /\ Emit(r[2])
 
 Wake(c) ==
